@@ -9,6 +9,8 @@ CONSTANTS
   HandlerSeqs <- L_HSeqs3
   UpProgs <- L_UpProgs
   CRProg <- L_CR
+  Forms = {"fresh"}
+  Colls = {}
   QuitOn = TRUE
   QuitDeferred = TRUE
   DefCap = 0
@@ -25,4 +27,5 @@ PROPERTY FiredForever
 PROPERTY NeverEarly
 PROPERTY LifeLogged
 PROPERTY CROnce
+PROPERTY DepsFixed
 CHECK_DEADLOCK FALSE
